@@ -1568,6 +1568,28 @@ class StateEngine(object):
             state_type = state.get("Type")
 
             """
+            If a Map state fails when it is re-entered for its next
+            MaxConcurrency batch (e.g. its ItemSelector fails for an item of
+            that batch) the entry on top of the Branch stack is the Map
+            state's own re-entry marker, which has no "Index". The Map state
+            is left now, so remove the marker (what follows belongs to the
+            Branch enclosing the Map state, if any) and mark the iterations
+            that will never be launched so that no results stay pending.
+            """
+            branch_info_stack = context["State"].get("Branch")
+            if state_type == "Map" and branch_info_stack and "Index" not in branch_info_stack[-1]:
+                marker = branch_info_stack.pop()
+                if len(branch_info_stack) == 0:
+                    del context["State"]["Branch"]
+                if execution_arn in self.branch_metadata:
+                    map_results = self.branch_metadata[execution_arn].results.get(marker.get("ID"))
+                    if map_results:
+                        map_results["results"][:] = [
+                            "__TERMINATED__" if r == None else r
+                            for r in map_results["results"]
+                        ]
+
+            """
             Get event data again rather than relying on the previously captured
             value, as it may have been replaced by subsequent processing.
             """
